@@ -665,6 +665,9 @@ func (in *Interp) bytesToStr(b Slice) *Str {
 // ---- lookup / maps ----
 
 func (in *Interp) lookup(fr *frame, instr *ssa.Lookup, x Value, idx Value) Value {
+	if m, ok := x.(*Map); ok && m != nil && in.sc != nil && in.sc.race != nil {
+		in.raceAccess(fr, m, false)
+	}
 	switch xv := x.(type) {
 	case *Str:
 		return in.strIndex(fr, xv, idx.(*Term), instr.Index.Type())
@@ -721,6 +724,9 @@ func (in *Interp) mapFind(fr *frame, m *Map, kt types.Type, key Value) int {
 }
 
 func (in *Interp) mapSet(fr *frame, m *Map, key, val Value) {
+	if in.sc != nil && in.sc.race != nil {
+		in.raceAccess(fr, m, true)
+	}
 	// key type is not needed for concrete keys; for symbolic ones eqVal works on dynamic shapes
 	slot := in.mapFind(fr, m, nil, key)
 	if slot >= 0 {
@@ -739,6 +745,9 @@ func (in *Interp) mapSet(fr *frame, m *Map, key, val Value) {
 }
 
 func (in *Interp) mapDelete(fr *frame, m *Map, key Value) {
+	if m != nil && in.sc != nil && in.sc.race != nil {
+		in.raceAccess(fr, m, true)
+	}
 	if m == nil {
 		return
 	}
